@@ -135,3 +135,14 @@ CHECK = {
     ],
     "assumptions": ["octets of the buffer are < 256 (wf_bytes); start offset arbitrary"],
 }
+
+MANIFEST = {
+    "level_text": ("Coq theorems (no axioms) that the model of src/name/wire.rs accepts exactly the names of an inductive "
+                   "RFC 1035 §4.1.4 decoding relation, with the same name and first-chunk length, never panics for any buffer "
+                   "and start offset, and that skip/validate/uncompressed parsing agree; the model is tied to the code by a "
+                   "differential run on ~200k (quick) cases incl. exhaustive short buffers, and the extracted spec decoder "
+                   "(proved equal to the relation) is evaluated on every implementation output."),
+    "level_note": ("Trusted: Coq kernel, ExtrOcamlBasic extraction, the hand-written model's correspondence to the Rust code "
+                   "(differentially tested, not proved), the regenerated constants. The unsafe DST construction is exercised, not verified."),
+    "technique": "machine-checked proof in Coq (soundness+completeness vs inductive relation) + model/implementation correspondence check",
+}
